@@ -1,5 +1,6 @@
 pub mod boxw;
 pub mod chunk;
+pub mod rngw;
 pub mod sodium;
 pub mod stream;
 pub mod verifier;
